@@ -37,7 +37,6 @@ PROP = "C19"
 MODS = ["EmbitModel.Props.C19", "EmbitModel.Props.C19Facts", "EmbitModel.Props.C19X", "EmbitModel.Props.C19Y",
         "EmbitModel.Props.C19Complete"]
 ZYGOTE = os.path.join(os.path.dirname(os.path.dirname(os.path.abspath(__file__))), "c19zygote.py")
-FINDING_SITES = "D31"
 
 
 # ------------------------------------------------------------------------------------------------ fork server
@@ -259,31 +258,17 @@ class Gen:
         if not c:
             return self.c_key()
         s = self.r.choice(c)
+        # the same Key object goes into descriptors of either kind and stays in use (before the repair of D31 the
+        # constructor rewrote `taproot` on it, and the key and everything built from it were retired here)
         kind = self.r.choice(["tr", "wpkh", "pkh", "wpkh"])
-        flag = kind == "tr"
-        flips = self.pool[s]["flag"] != flag
         self.add({"op": "desc_from_key", "key": s, "kind": kind, "dst": self.new("desc", key=s)})
-        if flips:
-            self.flip(s, flag)
 
     def f_taptree_from_key(self):
         c = self.slots("key", pred=lambda i: i.get("root"))
         if not c:
             return
         s = self.r.choice(c)
-        flips = self.pool[s]["flag"] is not True
         self.add({"op": "taptree_from_key", "key": s, "dst": self.new("tree", key=s)})
-        if flips:
-            self.flip(s, True)
-
-    def flip(self, key, flag):
-        """the constructor rewrites `taproot` on the caller's key (recorded finding D31): the key and everything built
-        from it are not used again, so that only the offending call itself is attributed to the finding"""
-        self.pool[key]["flag"] = flag
-        self.retired.add(key)
-        for s, i in self.pool.items():
-            if i.get("key") == key:
-                self.retired.add(s)
 
     def f_hd_derive(self):
         c = self.slots("hd")
@@ -599,11 +584,19 @@ def directed():
             {"op": "desc_parse", "dst": "d", "which": 0, "seed": 2}, {"op": "desc_owns", "obj": "d", "psbt": "p"},
             {"op": "desc_derive", "src": "d", "dst": "d3", "idx": 3, "branch": 1}, {"op": "desc_to_public", "src": "d", "dst": "dp"},
             {"op": "desc_info", "obj": "d", "idx": 3}]),
-        ("D31 Descriptor(key=k) rewrites k.taproot", [
+        # D31 (repaired by fixes/d31.diff): the constructors assigned `taproot` on the caller's Key objects. These
+        # histories failed on the defective code (argument changed / d1 changed by building d2 / d1.script_pubkey() raised)
+        ("D31 Descriptor(key=k) twice with different taproot flags", [
             {"op": "key_new", "dst": "k", "seed": 1, "kind": "pub"}, {"op": "desc_from_key", "key": "k", "kind": "tr", "dst": "d1"},
-            {"op": "desc_from_key", "key": "k", "kind": "wpkh", "dst": "d2"}]),
-        ("D31 TapTree(leaf) rewrites k.taproot", [
-            {"op": "key_new", "dst": "k", "seed": 1, "kind": "pub"}, {"op": "taptree_from_key", "key": "k", "dst": "t"}]),
+            {"op": "desc_info", "obj": "d1", "idx": 0},
+            {"op": "desc_from_key", "key": "k", "kind": "wpkh", "dst": "d2"}, {"op": "desc_info", "obj": "d1", "idx": 0},
+            {"op": "desc_info", "obj": "d2", "idx": 0}, {"op": "desc_from_key", "key": "k", "kind": "pkh", "dst": "d3"},
+            {"op": "desc_from_key", "key": "k", "kind": "tr", "dst": "d4"}, {"op": "desc_info", "obj": "d3", "idx": 0},
+            {"op": "desc_info", "obj": "d4", "idx": 0}, {"op": "desc_info", "obj": "d1", "idx": 0}]),
+        ("D31 TapTree(leaf) leaves k as it is", [
+            {"op": "key_new", "dst": "k", "seed": 1, "kind": "pub"}, {"op": "taptree_from_key", "key": "k", "dst": "t"},
+            {"op": "desc_from_key", "key": "k", "kind": "wpkh", "dst": "d"}, {"op": "desc_info", "obj": "d", "idx": 0},
+            {"op": "taptree_from_key", "key": "k", "dst": "t2"}, {"op": "desc_info", "obj": "d", "idx": 0}]),
     ]
 
 
@@ -1102,16 +1095,6 @@ class SharedAbstraction:
 
 # ------------------------------------------------------------------------------------------------ the check
 
-def classifier_d31(rec):
-    """D31: Descriptor(...) / TapTree(...) rewrite `taproot` on the caller's key objects — the offending constructor call
-    itself, with nothing but that flag changed, or the translator's sites for it"""
-    if rec.get("op") == "site":
-        return rec.get("site") in set(lean_list("knownUnsafe"))
-    o = rec.get("operation") or {}
-    return (rec.get("check") in ("arg-changed", "other-changed") and o.get("op") in ("desc_from_key", "taptree_from_key")
-            and rec.get("only_taproot_flag") is True)
-
-
 def examine(c, zyg, ops, kind, abstraction, shrink_budget=80):
     ans = zyg.eval(ops)
     fs = failures(ops, ans)
@@ -1257,7 +1240,6 @@ def run(tier, seed):
         "(Props/C19.stale_after_raw_mutation shows what happens otherwise)",
         "the in-place tweak variants of the secp256k1 binding, hash/stream sink parameters and the scope handed to "
         "sign_input_with_tapkey modify an argument by contract (list `contractMutators` in Props/C19.lean)"]
-    c.classifiers["ctor_writes_taproot_flag"] = classifier_d31
     # C19_HISTORIES_ONLY=1 (experiments only): leave the translator out, to see what the histories find on their own
     histories_only = bool(os.environ.get("C19_HISTORIES_ONLY"))
     changed, err = (False, None) if histories_only else facts.regenerate("alias")
